@@ -14,6 +14,7 @@ RULE = ("generators: dimensions 1..6, both is_real values, k_param over its whol
         "interleavings of seeded and unseeded calls with np.random.seed perturbations and foreign default_rng draws, logged and checked offline; measurements: spanning "
         "ensembles of 2..6 states (pure and mixed, any prior), Kraus / projective measurement sets with complex, float and integer dtype states; signature (monitor, function, dimension, options)")
 ASSUMPTIONS = [
+    "random_povm: validity tolerance 50 eps cond(N) (N the normaliser recomputed from the seeded draws), never above 1e-5, 1e-5 for unseeded calls",
     "kind checks are model checks (eigenvalues / singular values / Gram matrices), not the library's own predicates; tolerance 1e-9 (rank: sigma_{k+1} <= 1e-9)",
     "random_state_vector with 0 < k_param < min(dim) lives on C^{d0 d1} (C^{d^2} for a scalar d), otherwise on C^d: only unit norm and the Schmidt-rank bound are asserted",
     "P_opt is bracketed by the C10 certificate (attained value of the library's POVM, dual-feasible bound), evaluated with NumPy",
@@ -42,6 +43,28 @@ def _unseeded(fn, k):
 def _call(ctx, fn, *a, **k):
     v = ctx.call(fn, *a, history=not _unseeded(fn, k), **k)
     return None if v is FAILED else v
+
+
+def _povm_tolerance(d, ni, no, seed, povm):
+    """Validity tolerance for random_povm.  The elements are G_a^T G_a conjugated by N^(-1/2), N = sum_a G_a^T G_a, so completeness holds to about
+    eps * cond(N); for a seeded call the Gaussian draws - and so cond(N) - are recomputed here (and used only if they reproduce the returned
+    elements), otherwise the documented validity notion of the library (1e-5) applies."""
+    if seed is None:
+        return 1e-5, "flat (unseeded call)"
+    g = np.random.default_rng(seed=seed).normal(size=(ni, no, d, d))
+    worst_cond = 1.0
+    for x in range(ni):
+        n_mat = sum(g[x, a].T @ g[x, a] for a in range(no))
+        w, v = np.linalg.eigh(n_mat)
+        if w.min() <= 0:
+            return 1e-5, "flat (singular normaliser)"
+        inv_half = (v / np.sqrt(w)) @ v.T
+        for a in range(no):
+            model = inv_half @ g[x, a].T @ g[x, a] @ inv_half
+            if np.abs(model - povm[:, :, x, a]).max() > 1e-3:
+                return 1e-5, "flat (draws not reproduced)"
+        worst_cond = max(worst_cond, float(w.max() / w.min()))
+    return float(min(1e-5, max(1e-9, 50 * np.finfo(float).eps * worst_cond))), f"50 eps cond(N), cond(N) = {worst_cond:.3g}"
 
 
 def _kind(ctx, name, cond, sig, detail, mech=None, nt=True):
@@ -135,8 +158,9 @@ def _run_kind(ctx, spec, rng):
                     ops = [povm[:, :, x, a] for a in range(no)]
                     neg, comp, hdev = certs.povm_defect(ops, d)
                     worst = max(worst, neg, comp, hdev)
-            # the normaliser is inverted through an SVD: completeness holds to ~3e-9 when it is ill-conditioned (observed 3.2e-9)
-            _kind(ctx, "random_povm", okk and worst <= 1e-7, (d, ni, no), {"d": d, "inputs": ni, "outputs": no, "worst_defect": worst, "shape": list(povm.shape)})
+            tol, how = _povm_tolerance(d, ni, no, seed, povm) if okk else (1e-9, "-")
+            _kind(ctx, "random_povm", okk and worst <= tol, (d, ni, no), {"d": d, "inputs": ni, "outputs": no, "worst_defect": worst, "tolerance": tol, "tolerance_from": how,
+                                                                          "shape": list(povm.shape)})
             ctx.sample("kind:random_povm", {"d": d, "inputs": ni, "outputs": no, "worst_defect": worst})
     elif which == 6:
         g = _call(ctx, tr.random_circulant_gram_matrix, d, seed)
